@@ -286,6 +286,21 @@ PROPS = {
         ],
         "level_text": "Lean theorems C15_rate (for all N >= 1, W >= 0, ALL clock sequences after Go's zero time, monotone or not, all i and k >= 1: release(i+k-1) - release(i) >= (k-1-10)*floor(W/N); potential-function proof, no bound on lengths), C15_rate_slack (any burst allowance), C15_any_set (order-free: any k distinct probes span >= (k-1-10)*floor(W/N)), C15_held (never released before asking; Sleep argument = release - now), C15_wire (wire times with tolerance eps), C15_sequential (single sender, no eps, (k-2-10)), C15_spec_verdict (the executable Spec predicate is true of every finite model run), C15_new (rate 0 panics, never reached), C15_charged_once (for every call sequence on a wrapper each sent item is charged exactly once before it is handed on, reads never), and over facts regenerated from the source on every run C15_wrapper_shape / C15_wiring / C15_plumbing (method bodies are exactly Take-then-delegate, ReadPacketData not overridden, limiter installed iff rateCount > 0 with ratelimit.New(rateCount, Per(rateWindow)) and no slack option at both sites, every packet command passes rateCount/rateWindow on, library version v0.2.0). Tied to the code by running the REAL ratelimit limiter under scripted clocks (exact equality of release times and Sleep arguments with the model, incl. readings around the zero time, the andres-erbsen mock clock as a sequential sender and concurrent Takes with linearisation check), the REAL wrappers around a counting limiter and recording delegate, and the REAL newScanEngine wiring in real time (sequential bound on Scan start times).",
         "level_note": "Trusted: Lean kernel (+ Mathlib for C15_any_set); the limiter model is validated differentially on every run, not proved from the Go source; Sleep semantics, dispatch latency eps and int64 range are runtime assumptions; the packet wiring site (startPacketScanEngine needs an AF_PACKET socket) is tied by generated facts only, the application wiring site also dynamically; the order-free clause of the harness verdict (release times sorted) is justified by C15_any_set on paper, not by a list-level theorem. Observed library quirk (harmless direction): after a failed CAS iteration that wanted to sleep, Take may pass the stale interval to Sleep although the final iteration needs none (sleeps longer than needed, never shorter).",
+    "C10": {
+        "modules": ["SxVerif.Props.C10"],
+        "components": ["httpprobe"],
+        "trusted_base": [
+            "modelled, not verified: net/http client + transport (connection errors, header/body stalls, redirects, 204/304 bodies), crypto/tls, encoding/json (Decoder.Decode reads one value, null into map/struct is a no-op, one byte of look-ahead after literals and numbers, Token at end of body, Unmarshal of a whole body) and the moby client (Ping HEAD->GET fallback, API-version negotiation, checkResponseErr, ensureReaderClosed, ServerVersion) behind the outcome abstraction of Model/HttpProbe.lean: per request an exchange = chain of hops (refused | protocol mismatch | close | RST | non-HTTP bytes | stalled / partial headers | response(status, delay, body class, id, ending)), body class in {object, {}, object+ws, object+trailing data, ill-typed object, null, null+tail, array, scalar, truncated, garbage, empty}, ending in {eof, stall, endless}",
+            "call structure, deadlines, record literals, URLs and HTTP client settings of elastic.go / docker.go regenerated by sxfacts (Generated/HttpProbe.lean) and compared with Model/HttpProbe.Assumed by Props/C10.C10_wiring",
+            "JSON parsing is not re-proved: the body classifier is validated against encoding/json by serving several textual variants of every class",
+        ],
+        "assumptions": [
+            "deadline hypothesis (h_deadline of C10_*_time_partial): context / net/http / TLS / kernel end a request at most eps after its context deadline; the timed model makes it concrete as 'a stalled step ends exactly at the deadline'; measured on every run with slack 400 ms (a duration over the bound is re-measured alone, at most twice, before it is reported)",
+            "Spec readings (judgements): 'a body that parses as a JSON object' = the WHOLE body is one JSON text whose value is an object (null, trailing data after the object and a body that never ends are not); elastic: status code not part of the statement; docker: 'API call succeeded' = status 200..399 and the object fits the Info schema; 'it answered' = the probed target's own answer, not that of an endpoint it redirects to; the secondary value shown is absent or an object the target itself sent",
+            "docker: one deadline per probe (as the code and DESIGN.md say), the negotiation ping comes out of the same budget",
+        ],
+        "level_text": "Lean theorems C10_elastic / C10_docker (the Spec predicate - decision, record fields, duration bound - holds of the model for every endpoint behaviour on every request, every status, delay, timeout and redirect chain), C10_*_reported_iff, C10_*_record (scheme, host:port, info are the target's; secondary value never another endpoint's), C10_*_secondary_irrelevant, C10_*_redirect_irrelevant, C10_*_time_partial (duration bound for ANY client behaviour under the explicit deadline hypothesis) and C10_wiring over facts regenerated from elastic.go / docker.go on every run. Tied to the code by running the real elastic.Scanner / docker.Scanner against scripted loopback HTTP and HTTPS endpoints (body classes x endings x statuses x connection failures x delays x redirects), durations measured.",
+        "level_note": "Trusted: Lean kernel; net/http, TLS, encoding/json and the moby client are modelled behind the outcome abstraction and validated differentially (1.1k cases quick / 7.5k thorough), not proved; the time bound is a theorem of the timed model / of any client meeting the deadline hypothesis.",
     },
     "C18": {
         "modules": ["SxVerif.Props.C18"],
